@@ -5,7 +5,7 @@ for d in seeded/*/; do
   id=$(basename $d)
   checks=$(python3 -c "import json;print(','.join(json.load(open('$d/meta.json'))['checks']))")
   first=${checks%%,*}
-  if [ -z "$first" ]; then echo "$id recorded as not detected (see its meta.json and DESIGN 9.2)"; continue; fi
+  if [ -z "$first" ]; then echo "$id recorded as not detected / no longer a breaking change (see its meta.json and DESIGN 9.2)"; continue; fi
   out=$(/venv/bin/python tools/seeded.py $d --checks $first 2>&1 | grep "^check")
   echo "$id $out"
 done
